@@ -173,7 +173,7 @@ def h_history(ctx: Any, n: int, m: int, prof: str, twin: bool = False) -> None:
         want = (O.subst_e if op == 'e' else O.subst_s)(O.expand(p), x, O.expand(plug))
         f = (lambda q, a: q.apply_esubst(*a)) if op == 'e' else (lambda q, a: q.apply_ssubst(*a))
         warm_args = [(x, gens.kind_swap(plug)), (x, plug)]
-    for q in (gens.kind_swap(p), gens.id_shift(p)):
+    for q in gens.siblings(p, ctx):
         for a in warm_args:
             try:
                 f(q, a)
